@@ -587,7 +587,7 @@ fn main() {
         return;
     }
     let threads = a.pick(2, 8) as u64;
-    let n_offers = a.pick(5000u64, 60_000u64);
+    let n_offers = a.pick(5000u64, 200_000u64);
     let sample_every = a.pick(10u64, 25u64);
     let rounds = a.pick(4usize, 40usize);
     std::thread::scope(|s| {
